@@ -188,10 +188,10 @@ VARIANTS = [
     V("C10", "api file named after package", "api_analyzer/cli/_cli.py", 'out_file_api = out_dir_path.joinpath(f"{src_dir_path.name}__api.json")', 'out_file_api = out_dir_path.joinpath(f"{api.package}__api.json")', "C10.API-NAME"),
     V("C10", "paths not resolved", "api_analyzer/cli/_cli.py", "out_dir_path=args.out.resolve(),", "out_dir_path=args.out,", "C10.API-NAME"),
     V("C10", "leading underscores kept", GS, '        public_module_name = module_name.lstrip("_")', "        public_module_name = module_name", "C10.SAME-ORIGIN"),
-    V("C10", "package module drops two segments", GS, 'corrected_module_dir = Path("/".join(module_dir.parts[:-1]))', 'corrected_module_dir = Path("/".join(module_dir.parts[:-2]))', "C10."),
+    V("C10", "package module drops two segments", GS, 'corrected_module_dir = module_dir.parent', 'corrected_module_dir = module_dir.parent.parent', "C10."),
     V("C10", "new writer in generator", GEN, "        module_data = []\n        for module_id in self.reexport_modules:", "        module_data = []\n        Path(out_path / \"index.txt\").touch()\n        for module_id in self.reexport_modules:", "C10.WRITE-SINKS"),
     V("C10", "unparse round trip", GS, "<<unparse>>", "", None),
-    V("C10", "benign: parent attribute", GS, 'corrected_module_dir = Path("/".join(module_dir.parts[:-1]))', "corrected_module_dir = module_dir.parent", None),
+    V("C10", "benign: parent wrapped in Path()", GS, 'corrected_module_dir = module_dir.parent', "corrected_module_dir = Path(module_dir.parent)", None),
     # ------------------------------------------------------------------ C16
     V("C16", "methods sorted in place", GEN, "        for method in methods:\n            # Add methods of internal classes", "        methods.sort(key=lambda m: m.name)\n        for method in methods:\n            # Add methods of internal classes", "C16.NO-MODEL-WRITE"),
     V("C16", "union returns own list", TY, "        type_list = []\n        for t in self.types:\n            type_list.append(t.to_dict())\n\n        return {\"kind\": self.__class__.__name__, \"types\": type_list}", "        return {\"kind\": self.__class__.__name__, \"types\": self.types}", "C16.TODICT-FRESH"),
@@ -487,4 +487,33 @@ VARIANTS += [
       "                if len(types) == 0:\n                    raise ValueError(\"Final type has no type arguments.\")", "C01.RAISE-INVENTORY"),
     V("C01", "assignment targets asserted to be names or tuples again", VIS, "        if isinstance(lvalue, mp_nodes.StarExpr):\n            lvalue = lvalue.expr\n\n        if isinstance(lvalue, mp_nodes.NameExpr | mp_nodes.MemberExpr):",
       "        assert isinstance(lvalue, mp_nodes.NameExpr | mp_nodes.MemberExpr | mp_nodes.TupleExpr)\n        if isinstance(lvalue, mp_nodes.NameExpr | mp_nodes.MemberExpr):", "C01.RAISE-INVENTORY"),
+]
+VARIANTS += [
+    V("C05", "union members not flattened", VIS, "            union_items = mp_types.flatten_nested_unions(mypy_type.items, handle_recursive=False)\n", "            union_items = mypy_type.items\n", "C05.CTOR-TABLE"),
+]
+VARIANTS += [
+    V("C03", "alias taken from any import ending like the name", GEN, '                if qualified_import.qualified_name.split(".")[-1] == node.name:', '                if qualified_import.qualified_name.endswith(node.name):', "C03.MOVE"),
+    V("C03", "benign: own import recognised with rpartition", GEN, '                if qualified_import.qualified_name.split(".")[-1] == node.name:', '                if qualified_import.qualified_name.rpartition(".")[2] == node.name:', None),
+    V("C11", "re-exporters ordered by path length first", VIS, "        # Sort for snapshot tests\n        reexported_by.sort(key=lambda x: x.id)\n\n        # Get constructor docstring", "        # Sort for snapshot tests\n        reexported_by.sort(key=lambda x: (len(x.id), x.id))\n\n        # Get constructor docstring", "C11.MOVE-IMPORT-AGREE"),
+    V("C11", "move keeps the last package of minimal depth", GEN, "            if len(reexport_module.id.split(\"/\")) < len(shortest_reexport_module_id.split(\"/\")):", "            if len(reexport_module.id.split(\"/\")) <= len(shortest_reexport_module_id.split(\"/\")):", "C11.MOVE-IMPORT-AGREE"),
+    V("C11", "benign: sort key lambda parameter renamed", VIS, "        # Sort for snapshot tests\n        reexported_by.sort(key=lambda x: x.id)\n\n        # Get constructor docstring", "        # Sort for snapshot tests\n        reexported_by.sort(key=lambda module: module.id)\n\n        # Get constructor docstring", None),
+    V("C08", "nearest package taken from the first enumerated init file", GA, "    for init in all_inits:\n        path_len = len(init.parts)\n        if shortest_len == -1:", "    if all_inits:\n        shortest_len = len(all_inits[0].parts)\n    for init in all_inits:\n        path_len = len(init.parts)\n        if shortest_len == -1:", "C08.FS-ENUM"),
+    V("C17", "attribute names recorded in their emitted spelling", GEN, "            all_attr_names.add(attr_name)\n", "            all_attr_names.add(_convert_name_to_convention(attr_name, self.naming_convention))\n", "C17.OWN-FIRST"),
+    V("C17", "properties not recorded as defined names", GEN, "            elif method.is_property:\n                all_method_names.add(method.name)\n", "            elif method.is_property:\n", "C17.OWN-FIRST"),
+    V("C03", "tuple elements of a constructor parsed as class attributes", VIS, "                attributes.extend(self._parse_attributes(lvalue_, unanalyzed_type, is_static))", "                attributes.extend(self._parse_attributes(lvalue_, unanalyzed_type))", "C03.ATTR-TARGETS"),
+    V("C12", "tuple elements of a constructor parsed as class attributes", VIS, "                attributes.extend(self._parse_attributes(lvalue_, unanalyzed_type, is_static))", "                attributes.extend(self._parse_attributes(lvalue_, unanalyzed_type))", "C12.ATTR-TARGETS"),
+]
+VARIANTS += [
+    V("C01", "package stub directory re-assembled from its parts", GS, "            corrected_module_dir = module_dir.parent\n", "            corrected_module_dir = Path(\"/\".join(module_dir.parts[:-1]))\n", "C01.PATH-ARITH"),
+    V("C01", "type of self read without a test", VIS, "                        self_type = return_stmt.expr.node.type\n                        if isinstance(self_type, mp_types.Instance):\n                            expr_type = self_type.type\n                            types.add(sds_types.NamedType(name=expr_type.name, qname=expr_type.fullname))",
+      "                        expr_type = return_stmt.expr.node.type.type\n                        types.add(sds_types.NamedType(name=expr_type.name, qname=expr_type.fullname))", "C01.LIBAPI"),
+    V("C01", "benign: type of self tested against None", VIS, "                        if isinstance(self_type, mp_types.Instance):\n", "                        if self_type is not None and isinstance(self_type, mp_types.Instance):\n", None),
+    V("C01", "enum handlers selected by mypy's is_enum, children by the base names", WALK, "            if isinstance(node, ClassDef) and self.__is_enum(node):", "            if isinstance(node, ClassDef) and (node.info.is_enum or self.__is_enum(node)):", "C01.STACK"),
+    V("C01", "inherited nested classes take part in the re-export test", GEN, "                class_string = self._create_class_string(\n                    class_=inner_class,\n                    class_indentation=inner_indentations,\n                    in_reexport_module=True,\n                )\n                superclass_methods_text",
+      "                class_string = self._create_class_string(class_=inner_class, class_indentation=inner_indentations)\n                superclass_methods_text", "C03.MOVE"),
+]
+VARIANTS += [
+    V("C07", "a docstring entry can name several results", VIS, "                    if hash(docstring.type) == hash(type_) and not any(docstring is matched for matched in matched_docstrings):", "                    if hash(docstring.type) == hash(type_):", "C07.RESULT-NAMES"),
+    V("C07", "benign: matched entries removed from a copy of the list", VIS, "            matched_docstrings: list[ResultDocstring] = []\n            for type_ in return_results:\n                result_docstring = ResultDocstring()\n                for docstring in result_docstrings:\n                    if hash(docstring.type) == hash(type_) and not any(docstring is matched for matched in matched_docstrings):\n                        result_docstring = docstring\n                        matched_docstrings.append(docstring)\n                        break",
+      "            result_docstrings = list(result_docstrings)\n            for type_ in return_results:\n                result_docstring = ResultDocstring()\n                for docstring in result_docstrings:\n                    if hash(docstring.type) == hash(type_):\n                        result_docstring = docstring\n                        result_docstrings.remove(docstring)\n                        break", None),
 ]
